@@ -258,6 +258,7 @@ func Open(path string, mode os.FileMode, options *Options) (db *DB, err error) {
 
 	// Default values for test hooks
 	db.ops.writeAt = db.file.WriteAt
+	verifWrapOps(db)
 
 	if db.pageSize = options.PageSize; db.pageSize == 0 {
 		// Set the default page size to the OS page size.
@@ -513,10 +514,14 @@ func (db *DB) mmap(minsz int) (err error) {
 	// Memory-map the data file as a byte slice.
 	// gofail: var mapError string
 	// return errors.New(mapError)
+	if err = verifBefore(db, "mmap", 0, nil, int64(size)); err != nil {
+		return err
+	}
 	if err = mmap(db, size); err != nil {
 		lg.Errorf("[GOOS: %s, GOARCH: %s] mmap failed, size: %d, error: %v", runtime.GOOS, runtime.GOARCH, size, err)
 		return err
 	}
+	verifAfter(db, "mmap", 0, nil, int64(size), nil)
 
 	// Perform unmmap on any error to reset all data fields:
 	// dataref, data, datasz, meta0 and meta1.
@@ -790,6 +795,7 @@ func (db *DB) Logger() Logger {
 }
 
 func (db *DB) beginTx() (*Tx, error) {
+	verifYield("beginTx:enter")
 	// Lock the meta pages while we initialize the transaction. We obtain
 	// the meta lock before the mmap lock because that's the order that the
 	// write transaction will obtain them.
@@ -824,6 +830,7 @@ func (db *DB) beginTx() (*Tx, error) {
 
 	// Unlock the meta pages.
 	db.metalock.Unlock()
+	verifYield("beginTx:registered")
 
 	// Update the transaction stats.
 	if db.stats != nil {
@@ -845,6 +852,7 @@ func (db *DB) beginRWTx() (*Tx, error) {
 	// Obtain writer lock. This is released by the transaction when it closes.
 	// This enforces only one writer transaction at a time.
 	db.rwlock.Lock()
+	verifYield("beginRWTx:locked")
 
 	// Once we have the writer lock then we can lock the meta pages so that
 	// we can set up the transaction.
@@ -875,6 +883,7 @@ func (db *DB) beginRWTx() (*Tx, error) {
 func (db *DB) removeTx(tx *Tx) {
 	// Release the read lock on the mmap.
 	db.mmaplock.RUnlock()
+	verifYield("removeTx:unmapped")
 
 	// Use the meta lock to restrict access to the DB object.
 	db.metalock.Lock()
@@ -994,6 +1003,7 @@ func (db *DB) Batch(fn func(*Tx) error) error {
 		go db.batch.trigger()
 	}
 	db.batchMu.Unlock()
+	verifYield("batch:queued")
 
 	err := <-errCh
 	if err == trySolo {
@@ -1033,6 +1043,7 @@ func (b *batch) run() {
 
 retry:
 	for len(b.calls) > 0 {
+		verifYield("batch:run")
 		var failIdx = -1
 		err := b.db.Update(func(tx *Tx) error {
 			for i, c := range b.calls {
@@ -1208,6 +1219,7 @@ func (db *DB) allocate(txid common.Txid, count int) (*common.Page, error) {
 		}
 	}
 	if minsz >= db.datasz {
+		verifYield("allocate:remap")
 		if err := db.mmap(minsz); err != nil {
 			if err == berrors.ErrMaxSizeReached {
 				return nil, err
@@ -1245,15 +1257,23 @@ func (db *DB) grow(sz int) error {
 		if runtime.GOOS != "windows" {
 			// gofail: var resizeFileError string
 			// return errors.New(resizeFileError)
+			if err := verifBefore(db, "truncate", 0, nil, int64(sz)); err != nil {
+				return fmt.Errorf("file resize error: %s", err)
+			}
 			if err := db.file.Truncate(int64(sz)); err != nil {
 				lg.Errorf("[GOOS: %s, GOARCH: %s] truncating file failed, size: %d, db.datasz: %d, error: %v", runtime.GOOS, runtime.GOARCH, sz, db.datasz, err)
 				return fmt.Errorf("file resize error: %s", err)
 			}
+			verifAfter(db, "truncate", 0, nil, int64(sz), nil)
+		}
+		if err := verifBefore(db, "fsync", 0, nil, 0); err != nil {
+			return fmt.Errorf("file sync error: %s", err)
 		}
 		if err := db.file.Sync(); err != nil {
 			lg.Errorf("[GOOS: %s, GOARCH: %s] syncing file failed, db.datasz: %d, error: %v", runtime.GOOS, runtime.GOARCH, db.datasz, err)
 			return fmt.Errorf("file sync error: %s", err)
 		}
+		verifAfter(db, "fsync", 0, nil, 0, nil)
 		if db.Mlock {
 			// unlock old file and lock new one
 			if err := db.mrelock(fileSize, sz); err != nil {
